@@ -138,6 +138,9 @@ class Color(enum.Enum):
     green = 2
     true = 3            # a member named like a boolean
 
+    def describe(self) -> str:      # an attribute that is not a member
+        return 'colour %s' % self.name
+
 
 Uni.__init__.__annotations__['e'] = Union[bool, Color, None]
 
@@ -265,6 +268,39 @@ class Loose2:
         T(self, locals())
         self.a, self.b, self.s, self.l, self.d = a, b, s, l, d
         self._yatiml_extra = _yatiml_extra
+
+
+class TrapSav:
+    """Its savorize hook renames keys, so that two spellings of one
+    attribute meet only AFTER recognition."""
+    def __init__(self, a: Any, b_c: Any = None, n: int = 0) -> None:
+        T(self, locals())
+        self.a, self.b_c, self.n = a, b_c, n
+
+    @classmethod
+    def _yatiml_savorize(cls, node: yatiml.Node) -> None:
+        node.dashes_to_unders_in_keys()
+
+
+class ExtraDef:
+    """_yatiml_extra with a default value, after the required parameters."""
+    def __init__(self, a: int, b: str,
+                 _yatiml_extra: Optional[OrderedDict] = None) -> None:
+        T(self, locals())
+        self.a, self.b, self._yatiml_extra = a, b, _yatiml_extra
+
+
+class Alt:
+    def __init__(self, a: int) -> None:
+        T(self, locals())
+        self.a = a
+
+
+class ExtraHolder:
+    def __init__(self, u: Union[ExtraDef, Alt],
+                 v: Union[ExtraDef, Alt, None] = None) -> None:
+        T(self, locals())
+        self.u, self.v = u, v
 
 
 class Holder:
